@@ -388,7 +388,11 @@ func run(t *testing.T, cs caseSpec, onLeak func(string)) (res result) {
 		if !watch(time.Second, "after the fresh send") {
 			return
 		}
-		res.outcome = fmt.Sprintf("%s:%s:%s:gen2-up-after-%v", map[bool]string{true: "active", false: "passive"}[cs.Active], cs.State, cs.Fault, tUp-tEnd)
+		errs := ""
+		for _, c := range x.calls[:len(x.calls)-1] {
+			errs += fmt.Sprintf("[%s %v]", c.token, c.err)
+		}
+		res.outcome = fmt.Sprintf("%s:%s:%s:gen2-up-after-%v:%s", map[bool]string{true: "active", false: "passive"}[cs.Active], cs.State, cs.Fault, tUp-tEnd, errs)
 	})
 	return res
 }
@@ -414,7 +418,7 @@ func check(c *vfw.Ctx, t *testing.T, cs caseSpec) {
 func TestCheck(t *testing.T) {
 	vfw.Main(t, "C09", func(c *vfw.Ctx) {
 		c.Level("model_checking")
-		c.Rule("SECS-I part (E2, real secs1 connection, E4 peer; T3=30s, T5=2s, T1=100ms T2=300ms RTY=1): roles active/passive (thorough also host) x generation-1 state {W primary acknowledged and waiting for its reply; bidding unanswered; a synchronous send queued behind a stuck bid; two fire-and-forget sends queued behind a stuck bid; between block 1 and block 2 of a 2-block message; reply outstanding AND another send bidding} x fault {peer close, peer reset}: after the reconnect every generation-1 call has returned within close-timeout + T2*(RTY+1) + T1 of the cut with a definite error (async: accepted), generation 2's socket carries no byte of a generation-1 message for 2 s idle, after a stale reply to the generation-1 primary, and after a fresh send; the fresh send is transmitted as the first block and returns nil")
+		c.Rule("SECS-I part (E2, real secs1 connection, E4 peer; T3=30s, T5=2s, T1=100ms T2=300ms RTY=1): roles active/passive (thorough also host) x generation-1 state {W primary acknowledged and waiting for its reply; bidding unanswered; a synchronous send queued behind a stuck bid; two fire-and-forget sends queued behind a stuck bid; between block 1 and block 2 of a 2-block message; reply outstanding AND another send bidding; a synchronous and an asynchronous send started while the peer is in the middle of transmitting a block} x fault {peer close, peer reset}: after the reconnect every generation-1 call has returned within close-timeout + T2*(RTY+1) + T1 of the cut with a definite error (async: accepted), generation 2's socket carries no byte of a generation-1 message for 2 s idle, after a stale reply to the generation-1 primary, and after a fresh send; the fresh send is transmitted as the first block and returns nil")
 		c.Assume("testing/synctest virtual time", "sim in-memory network", "E4 peer (peer/e4.go), reference block codec (ref/e4)", "message bodies carry generation tokens (g1-/g2-) that cannot occur in headers or checksums by construction of the scan (a false match would need the three bytes 'g1-' in a block header/checksum)")
 		if c.Replay != nil {
 			var cs caseSpec
